@@ -12,6 +12,7 @@ import (
 	"crypto/ed25519"
 	"fmt"
 	"net/netip"
+	"strconv"
 	"strings"
 	"testing"
 	"testing/synctest"
@@ -323,7 +324,7 @@ func flip(raw []byte, byteIdx, bit int) []byte {
 func TestC07(t *testing.T) {
 	env := kit.GetEnv()
 	rep := kit.NewReport("C07", env)
-	rep.Rule = "per ping kind (hello req/resp, pong req/resp, error codes 0-4 + unknown, disconnect going-down/list, announce with 0 and 1 hop), produced by the real sender code of peer X in a fresh 6-router world: (a) every single-bit flip of every authenticated header byte (all except TTL/flow), the length fields and the signature/MAC, and one bit per body byte (thorough: all bits), each alone and on a copy that follows the genuine ping; (b) source rewritten to each other known identity, destination rewritten; (c) same ping re-built and sealed by another router claiming X's address; (c2) a relayed announcement whose delivering peer forges an inner hop record of a router the receiver already knows, with its own key embedded; (d) first-contact variants with header key right / wrong / for another address, the forged ones repeated three times (again as a hello and as the original kind); (e) replay of the exact frame after {nothing, a newer valid ping from X, a ping from Y, +31 s, 61 min of idle time + the session cleaner, a newer valid ping of each of the other kinds from X}; (f) the valid ping itself with its type-specific effect bound; snapshot = table + sessions(keys, MTU) + stored info/offline flags + connection verdicts; non-trivial = mutation hits an authenticated byte or the case must be rejected; states = distinct snapshots observed"
+	rep.Rule = "per ping kind (hello req/resp, pong req/resp, error codes 0-4 + unknown, disconnect going-down/list, announce with 0 and 1 hop), produced by the real sender code of peer X in a fresh 6-router world: (a) every single-bit flip of every authenticated header byte (all except TTL/flow), the length fields and the signature/MAC, and one bit per body byte (thorough: all bits), each alone and on a copy that follows the genuine ping; (b) source rewritten to each other known identity, destination rewritten; (c) same ping re-built and sealed by another router claiming X's address; (c2) a relayed announcement whose delivering peer forges an inner hop record of a router the receiver already knows, with its own key embedded; (d) first-contact variants with header key right / wrong / for another address, the forged ones repeated three times (again as a hello and as the original kind); (e) replay of the exact frame after {nothing, a newer valid ping from X, a ping from Y, +31 s, 61 min of idle time + the session cleaner, a newer valid ping of each of the other kinds from X; for the encrypted kinds: a newer opposite verdict whose sequence number jumped by {1,2,63,64,65,66,128}}; (f) the valid ping itself with its type-specific effect bound; snapshot = table + sessions(keys, MTU) + stored info/offline flags + connection verdicts; non-trivial = mutation hits an authenticated byte or the case must be rejected; states = distinct snapshots observed"
 	rep.Assumptions = []string{
 		"state is observed through exported accessors plus the VerifEntries hook; pending-ping bookkeeping (active hello/pong ids, error rate limiter) is not part of the statement's state list",
 		"disconnect pings are addressed to the router itself: as emitted by the real sender (unicast type to the multicast address) they are never dispatched to the disconnect handler at all",
@@ -546,6 +547,14 @@ func TestC07(t *testing.T) {
 				betweens = append(betweens, "kind:"+other.name)
 			}
 		}
+		if k.enc {
+			// encrypted kinds: X seals N newer encrypted frames of which only the last (the
+			// opposite verdict for the same flow) arrives - the sequence number jumps by N,
+			// around the width of the replay window - then the rate limit of error pings passes.
+			for _, n := range []int{1, 2, 63, 64, 65, 66, 128} {
+				betweens = append(betweens, fmt.Sprintf("jump:%d", n))
+			}
+		}
 		for ri, between := range betweens {
 			if !mine() {
 				continue
@@ -561,22 +570,36 @@ func TestC07(t *testing.T) {
 				}
 				tw.w.Inject(first, tw.r, raw) // first, legitimate delivery
 				tw.w.InFlight = nil
-				switch between {
-				case "newer-ping-from-X":
+				switch {
+				case between == "newer-ping-from-X":
 					time.Sleep(2 * time.Millisecond)
 					b, err := kit.BuildPing(tw.x, kit.PingSpec{Dst: tw.r.Identity().IP, MsgType: frame.RouterPing, PingType: "pong", Body: kit.MustCBOR(map[string]string{"msg": "ping"})})
 					must(err)
 					tw.w.Inject(tw.x, tw.r, b)
-				case "ping-from-Y":
+				case between == "ping-from-Y":
 					b, err := kit.BuildPing(tw.y, kit.PingSpec{Dst: tw.r.Identity().IP, MsgType: frame.RouterPing, PingType: "pong", Body: kit.MustCBOR(map[string]string{"msg": "ping"})})
 					must(err)
 					tw.w.Inject(tw.y, tw.r, b)
-				case "clock+31s":
+				case between == "clock+31s":
 					time.Sleep(31 * time.Second)
-				case "session-expiry(61min-idle+cleaner)":
+				case between == "session-expiry(61min-idle+cleaner)":
 					// the receiver's session cleaner drops sessions that were idle for an hour.
 					time.Sleep(61 * time.Minute)
 					tw.r.State().VerifCleanSessions()
+				case strings.HasPrefix(between, "jump:"):
+					n, _ := strconv.Atoi(strings.TrimPrefix(between, "jump:"))
+					time.Sleep(11 * time.Second)
+					for i := 0; i < n-1; i++ {
+						_, err := kit.BuildPing(tw.x, kit.PingSpec{Dst: tw.r.Identity().IP, MsgType: frame.RouterCtrl, PingType: "pong", Body: kit.MustCBOR(map[string]string{"msg": "lost"})})
+						must(err)
+					}
+					if k.name == "error-access-denied" {
+						must(tw.x.Router().ErrorPing.SendRejected(tw.r.Identity().IP, tw.x.Identity().IP, 6, 80))
+					} else {
+						must(tw.x.Router().ErrorPing.SendAccessDenied(tw.r.Identity().IP, tw.x.Identity().IP, 6, 80))
+					}
+					tw.w.Inject(tw.x, tw.r, one(tw.takeTo(tw.r)))
+					time.Sleep(11 * time.Second)
 				default:
 					// another valid, newer ping of the given kind from the same router.
 					time.Sleep(2 * time.Millisecond)
